@@ -6,6 +6,10 @@
 #include "oracles.hpp"
 #include "c08plan.hpp"
 #include <dirent.h>
+#include <sys/mman.h>
+#include <sys/resource.h>
+#include <sys/wait.h>
+#include <unistd.h>
 
 using namespace vf;
 
@@ -36,34 +40,68 @@ int main(int argc, char** argv) {
 	if (cmd == "check" && argc >= 6) {
 		std::string dir = argv[2];
 		size_t shard = (size_t)atol(argv[3]), n = (size_t)atol(argv[4]);
-		std::ofstream out(argv[5]);
+		std::ofstream out(argv[5], std::ios::app);
+		{ std::ofstream trunc(argv[5], std::ios::trunc); }
 		std::vector<std::string> files;
 		if (DIR* d = opendir(dir.c_str())) {
 			while (auto e = readdir(d)) { std::string s = e->d_name; if (s.size() > 4 && s.substr(s.size() - 4) == ".nif") files.push_back(s); }
 			closedir(d);
 		}
 		std::sort(files.begin(), files.end());
-		for (size_t i = shard; i < files.size(); i += n) {
-			std::string bytes = slurp(dir + "/" + files[i]);
-			std::string site, err;
-			int rc = 0;
-			err = c07ReloadCheck(bytes, site, &rc);
-			if (!err.empty()) { out << files[i] << "\tFAIL\t" << site << "\t" << err << "\n"; continue; }
-			NifFile f;
-			loadNif(f, bytes);
-			SaveTrace tr;
-			tr.recordTokens = true;
-			std::string again = saveTraced(f, true, tr);
-			{
-				std::ofstream t(dir + "/" + files[i] + ".rtrace");
-				for (auto& l : traceLines(tr)) t << l << "\n";
+		// The files were written by the *other* build and may be arbitrarily wrong for this one: every file is judged in a forked
+		// child (one child per run of files); a child that dies (allocation failure, crash, abort) is a verdict about the file it
+		// was working on, not a failure of the tool.
+		size_t* progress = (size_t*)mmap(nullptr, sizeof(size_t), PROT_READ | PROT_WRITE, MAP_SHARED | MAP_ANONYMOUS, -1, 0);
+		size_t next = shard;
+		while (next < files.size()) {
+			*progress = next;
+			out.flush();
+			pid_t pid = fork();
+			if (pid == 0) {
+				struct rlimit rl{(rlim_t)8 << 30, (rlim_t)8 << 30};
+				setrlimit(RLIMIT_AS, &rl);
+				for (size_t i = next; i < files.size(); i += n) {
+					*progress = i;
+					std::string bytes = slurp(dir + "/" + files[i]);
+					std::string site, err;
+					int rc = 0;
+					try {
+						err = c07ReloadCheck(bytes, site, &rc);
+						if (!err.empty()) { out << files[i] << "\tFAIL\t" << site << "\t" << err << "\n"; out.flush(); continue; }
+						NifFile f;
+						loadNif(f, bytes);
+						SaveTrace tr;
+						tr.recordTokens = true;
+						std::string again = saveTraced(f, true, tr);
+						{
+							std::ofstream t(dir + "/" + files[i] + ".rtrace");
+							for (auto& l : traceLines(tr)) t << l << "\n";
+						}
+						if (again != bytes) {
+							FileDiff df = diffFiles(bytes, again, verClass(f.GetHeader().GetVersion()));
+							out << files[i] << "\tFAIL\treencode/" << df.site << "\t" << df.detail << "\n";
+							out.flush();
+							continue;
+						}
+						out << files[i] << "\tOK\t\t\n";
+					}
+					catch (const std::exception& e) {
+						out << files[i] << "\tFAIL\tother-build-throws\tthe other build throws while reading / re-writing the file: " << e.what() << "\n";
+					}
+					out.flush();
+				}
+				out.flush();
+				_exit(0);
 			}
-			if (again != bytes) {
-				FileDiff df = diffFiles(bytes, again, verClass(f.GetHeader().GetVersion()));
-				out << files[i] << "\tFAIL\treencode/" << df.site << "\t" << df.detail << "\n";
-				continue;
-			}
-			out << files[i] << "\tOK\t\t\n";
+			int st = 0;
+			waitpid(pid, &st, 0);
+			if (WIFEXITED(st) && WEXITSTATUS(st) == 0) break;
+			size_t at = *progress;
+			out.close();
+			out.open(argv[5], std::ios::app);
+			out << files[at] << "\tFAIL\tother-build-dies\tthe other build " << (WIFSIGNALED(st) ? "is killed by signal " + std::to_string(WTERMSIG(st)) : "exits with " + std::to_string(WEXITSTATUS(st))) << " while reading / re-writing the file\n";
+			out.flush();
+			next = at + n;
 		}
 		return 0;
 	}
